@@ -110,11 +110,12 @@ def run_history(ops, entry="extract"):
     return None
 
 
+MODE = sys.argv[1] if len(sys.argv) > 1 else "all"        # "faults-only": just the glue-function fault scenarios (used by C05's check)
 names = list(KINDS) + ["zz_r"]
 alphabet = [("add", n) for n in names[:3]] + [("remove", n) for n in names[:3]] + [("fresh", "zz_m"), ("fresh", "zz_x")] + [("extract",)]
 maxlen = 5 if THOROUGH else 4
 seen_known = False
-for L in range(1, maxlen + 1):
+for L in (range(1, maxlen + 1) if MODE == "all" else ()):
     for ops in itertools.product(alphabet, repeat=L):
         nontrivial = any(o[0] in ("add", "fresh") for o in ops)
         leg.case(ops, nontrivial, sample=[list(o) for o in ops] if L == 3 and len(leg.samples) < 3 and nontrivial else None)
@@ -127,7 +128,7 @@ for L in range(1, maxlen + 1):
             else:
                 leg.violation(f"{key}:{ops}", desc)
 # other entry points (each drives the extraction machinery on its own): all histories of length <= 2
-for entry in ("extract_outermost", "extract_since", "extract_until"):
+for entry in (("extract_outermost", "extract_since", "extract_until") if MODE == "all" else ()):
     for L in (1, 2):
         for ops in itertools.product(alphabet, repeat=L):
             leg.case((entry,) + ops, any(o[0] == "add" for o in ops))
@@ -169,6 +170,30 @@ rw = [x for x in w if issubclass(x.category, RuntimeWarning) and "zz_u" in str(x
 if raised is not None or len(rw) != 1 or ("zz_m", "module", 0) not in LOG or st.error is not None:
     leg.violation("raising-glue-unprintable", f"a glue function raising an exception that cannot be printed must still cost one warning and nothing "
                                               f"else: raised={type(raised).__name__ if raised else None} warnings={len(rw)} log={LOG}")
+# a glue function that IMPORTS something (puts further modules into sys.modules while the installation pass is walking it): the
+# extraction returns normally; the module imported on the way has its own glue installed by the next extraction at the latest
+fresh_world()
+def importing_glue():
+    LOG.append(("zz_i", "module", 0))
+    for q in range(40):                                   # enough new entries to resize the dict
+        sys.modules["zz_lazy%d" % q] = types.ModuleType("zz_lazy%d" % q)
+    late = types.ModuleType("zz_late"); late._stackscope_install_glue_ = lambda: LOG.append(("zz_late", "module", 0))
+    sys.modules["zz_late"] = late
+mi = types.ModuleType("zz_i"); mi._stackscope_install_glue_ = importing_glue
+sys.modules["zz_i"] = mi
+leg.case("glue-that-imports", True)
+try:
+    with warnings.catch_warnings(record=True) as w:
+        warnings.simplefilter("always")
+        st1 = stackscope.extract(G); st2 = stackscope.extract(G)
+    raised = None
+except BaseException as e:
+    raised = e
+if raised is not None or st1.error is not None or LOG.count(("zz_i", "module", 0)) != 1 or LOG.count(("zz_late", "module", 0)) != 1:
+    leg.violation("glue-that-imports", f"a glue function that imports modules: raised={raised!r} log={LOG} "
+                                       f"(expected its own glue once, the late module's glue once after the second extraction)")
+for q in range(40): sys.modules.pop("zz_lazy%d" % q, None)
+sys.modules.pop("zz_late", None); sys.modules.pop("zz_i", None)
 # two threads: B starts extracting while A is inside a (slow) glue function
 fresh_world()
 started, done = threading.Event(), []
